@@ -126,6 +126,22 @@ def prove_fold_lemma(ctx):
     ctx.cov["discharged"] = int(m.group(1))
 
 
+def prove_step_safe(ctx):
+    """TLAPS: for EVERY core size and every pair of limits the reference interpreter stays inside the data model."""
+    d = ctx.sub("tlaps_stepsafe")
+    for f in ("StepSafe.tla", "MARSCore.tla"):
+        shutil.copy(os.path.join(SPEC, f), d)
+    p = subprocess.run(["timeout", "3000", "tlapm", "--threads", str(NCPU), "StepSafe.tla"], cwd=d, capture_output=True, text=True)
+    out = p.stdout + p.stderr
+    m = re.search(r"All (\d+) obligations? proved", out)
+    if p.returncode != 0 or not m:
+        raise ToolError("TLAPS did not prove StepSafe.tla:\n" + out[-1500:])
+    ctx.notes["tlaps_step_safe"] = ("StepSafe.tla: all %s obligations proved by tlapm (ArithSafe, OperandSafe, PostIncSafe, PreludeSafe, ExecSafe for every opcode, "
+                                    "FoldAddr, ExecTaskSafe: for unbounded M and limits 1..M a task leaves a well-typed core and queues at most two addresses)" % m.group(1))
+    ctx.cov["obligations"] = ctx.cov.get("obligations", 0) + int(m.group(1))
+    ctx.cov["discharged"] = ctx.cov.get("discharged", 0) + int(m.group(1))
+
+
 def check_C11(ctx):
     ctx.cov["rule"] = ("real single steps with every limit pair 1<=R,W<=M (M<=16; sampled above) and operands placed just inside/outside "
                        "floor(W/2), floor(R/2); TLC evaluates the three C11 predicates on the RECORDED pre/post states "
@@ -398,6 +414,8 @@ def check_C04(ctx):
                        "distinct_nontrivial = accepted configurations + hostile battles run.")
     ctx.cov["trusted_base"] = ["harness/enc.go tables", "generic core diff", "TLC", "Json module"]
     spec_battle_model(ctx)
+    if not ctx.quick:
+        prove_step_safe(ctx)      # about 7 minutes
     shards, st = gen_battles(ctx, "configs", ["-shards", 8 if ctx.quick else 96, "-n", 2500 if ctx.quick else 200000], "cf")
     s2, st2 = gen_battles(ctx, "battles", ["-shards", 8 if ctx.quick else 96, "-n", 1000 if ctx.quick else 120000, "-hostile", "-twin=false"], "bh")
     rej = ctx.validate_shards("BattleTrace", shards + s2, mode="C04", heap="6g")
